@@ -9,6 +9,8 @@ LEAN_MODULES = ['AsynqModel.Theorems.Acyclic', 'AsynqModel.Theorems.C03', 'Asynq
 THEOREMS = ["AsynqModel.Core." + n for n in ['acyclic_refs', 'acyclic_deps', 'no_await_cycle', 'await_rank', 'no_reentrancy', 'no_revisit_between_visits', 'no_stuck_wellscoped_partial', 'C03_ready', 'C03_once', 'C03_once_range', 'C03_runIdx_complete', 'C03_no_run_after_done', 'C03_running_uncomputed', 'C03_done_is_final', 'C03_yield_then_resume', 'C03_invariant', 'gensOf_map_fst', 'C03_inv_gensDistinct', 'C03_inv_buriedNotPending', 'C03_inv_ready', 'C03_lazy_start', 'C03_never_awaited_never_runs', 'C03_never_awaited_never_runs_dec', 'C03_never_awaited_not_started', 'C03_startable_awaited', 'C03_extract_reverse', 'C03_order_stack', 'C03_order_stack_step', 'C03_flush_has_batch', 'C03_terminates_yieldonly', 'C03_terminates_yieldonly_silent', 'C03_guard_never', 'C03_terminates', 'C03_terminates_silent', 'C03_sync_measure_decreases', 'C03_started_awaited', 'C03d_flush_finds_no_batch', 'C03d_wellscoped_needed', 'Spec_C03_accepts', 'Spec_C03_accepts_ws', 'Spec_C03_accepts_partial', 'Spec_C03_only_order_ret', 'C03_started_computed_at_return', 'C03_order_invariant', 'C03_order_at_start', 'Spec_C03_ret_needs_guard', 'Spec_C03_ret_needs_noNonAsync']]
 LEAN_MODULES = LEAN_MODULES + ['AsynqModel.Theorems.C03e']
 THEOREMS = THEOREMS + ["AsynqModel.Core." + n for n in ['no_stuck_wellscoped', 'no_stuck_wellscoped_silent', 'no_stuck_wellscoped_iff', 'no_stuck_wellscoped_full', 'no_syncret_stuck', 'oracle_needed', 'C03_terminates_strong', 'C03_terminates_strong_silent', 'C03_tops_accounted', 'guard_never_static', 'guard_never_stackBound', 'C03_stack_bound', 'C03_terminates_static', 'C03_terminates_static_silent']]
+LEAN_MODULES = LEAN_MODULES + ['AsynqModel.Theorems.C03f']
+THEOREMS = THEOREMS + ["AsynqModel.Core." + n for n in ['C03_terminates_guard', 'C03_terminates_guard_silent', 'C03_terminates_any', 'C03_measure_decreases_any', 'C03_terminates_nonasync', 'C03_terminates_nonasync_silent', 'C03_terminates_nonasync_nofail', 'C03f_guard_needed_for_orphans']]
 MIX = [('yield',3),('yield_err',2),('full',2),('sync',1)]
 RULE = ("grammar-generated task programs (profiles %s; trees and DAGs of tasks, 1-3 batch kinds with priority overrides "
         "and raising flushes, nested yield structures, errors, try/except, synchronous re-entry, contexts) interpreted on "
